@@ -13,6 +13,7 @@ func init() { register("C07", ruleC07) }
 
 func ruleC07(c *Ctx) {
 	c.Decided = []string{
+		"SHAPE-XLATE (shared with C06): Translate looks up ToUpper(3-letter window) in the map of all Triplet->Letter, one residue per complete window",
 		"TERM-CHOOSER: a Choice is offered only under float(w)/float(sum of the same amino acid's weights) > 0.10 (strict), with Item = codon.Triplet and Weight = uint(codon.Weight) unchanged, stored under aminoAcid.Letter; amino acids with no eligible codon get no chooser",
 		"TERM-OPT: Optimize emits, per input rune in order, Pick() of the chooser stored under that rune's string; chooser and translation map derive from the same AminoAcids[].Codons[] relation (C06)",
 		"GUARD-MISS: the chooser lookup keyed by the caller's residue is comma-ok and the miss branch returns a non-nil error before any Pick",
@@ -50,6 +51,8 @@ func ruleC07(c *Ctx) {
 	checkChooser(c, ch)
 	checkOptimize(c, opt)
 	checkProteinAlphabet(c)
+	// the other half of the round trip: Translate(Optimize(p)) == p needs Translate to be the table applied codon by codon (shared with C06)
+	checkTranslate(c)
 }
 
 // relHolds evaluates "a op b" on integers; ok=false for operators outside == != < <=.
